@@ -375,6 +375,9 @@ func (g *Gen) StoredCase(big bool) *Case {
 		switch r.Intn(6) {
 		case 0:
 			d = uint64(count) + uint64(r.Intn(3)) // out of range
+			if r.Intn(2) == 0 { // far out of range: beyond 32 and 63 bits, the largest uint64
+				d = []uint64{1 << 31, 1 << 32, 1<<63 - 1, 1 << 63, 1<<63 + 5, ^uint64(0)}[r.Intn(6)]
+			}
 			c.tag("out_of_range")
 		case 1:
 			d = 0
